@@ -1,6 +1,8 @@
 package main
 
 import (
+	"go/constant"
+	"sort"
 	"fmt"
 	"time"
 	"os"
@@ -98,6 +100,21 @@ func init() {
 		}
 		e.recordNondet(st, name, "bytes", nil, bs, n)
 		return st.newByteSlice(bs), true
+	}
+	// Blob(name, n): n arbitrary bytes carried as ONE wide variable (cheaper than n byte variables when the code only
+	// moves or compares the bytes as a block, e.g. signatures, hashes, addresses)
+	exact[api+"Blob"] = func(e *Engine, st *State, fn *ssa.Function, args []Value, retTo *ssa.Call) (Value, bool) {
+		name := strArg(args[0])
+		n := int(args[1].(*Term).Int64())
+		if n == 0 {
+			return st.newByteSlice(nil), true
+		}
+		if e.pinned != nil {
+			return exact[api+"Bytes"](e, st, fn, args, retTo)
+		}
+		t := st.fresh(name, BV(8*n))
+		e.recordNondet(st, name, "blob", t, nil, n)
+		return st.newByteSlice(bytesOfTerm(t)), true
 	}
 	exact[api+"Len"] = func(e *Engine, st *State, fn *ssa.Function, args []Value, retTo *ssa.Call) (Value, bool) {
 		name := strArg(args[0])
@@ -223,10 +240,7 @@ func (e *Engine) keccak(st *State, in []*Term) []*Term {
 	if len(in) == 0 {
 		h = Var("keccak_empty", BV(256))
 	} else {
-		inT = in[0]
-		for _, b := range in[1:] {
-			inT = Concat(inT, b)
-		}
+		inT = termOfBytes(in)
 		h = UF(name, BV(256), inT)
 	}
 	st.keccaks = append(st.keccaks, keccakApp{in: inT, out: h})
@@ -249,7 +263,13 @@ func (e *Engine) assert(st *State, c *Term, label string) {
 	}
 	t0 := time.Now()
 	q := append(sliceFor(st.pc, c), Not(c))
-	r := e.solver.Check(q)
+	var r Result
+	if prefixMode {
+		q = append(append([]*Term(nil), st.pc...), Not(c))
+		r = e.solver.CheckPC(st.pc, Not(c))
+	} else {
+		r = e.solver.Check(q)
+	}
 	ms := float64(time.Since(t0).Microseconds()) / 1000
 	if r == Sat {
 		e.solver.Pop()
@@ -622,4 +642,86 @@ func binaryRead(e *Engine, st *State, fn *ssa.Function, args []Value, retTo *ssa
 	st.store(Ptr{rp.Obj, pathAppend(rp.Path, 1)}, ConstU(uint64(i+size), 64))
 	st.store(Ptr{rp.Obj, pathAppend(rp.Path, 2)}, ConstI(-1, 64))
 	return IfaceV{}, true
+}
+
+// constsOf collects integer constants in [64, 200000] from the SSA of the named function of the harness package and of
+// the same-package functions it calls directly. Used to derive boundary lengths from the code under test.
+func (e *Engine) constsOf(fnName string) []int {
+	var root *ssa.Function
+	if i := strings.LastIndex(fnName, "."); i >= 0 {
+		// method: Type.Method
+		if tn, ok := e.pkgOfEntry.Members[fnName[:i]].(*ssa.Type); ok {
+			root = e.prog.LookupMethod(types.NewPointer(tn.Type()), e.pkgOfEntry.Pkg, fnName[i+1:])
+		}
+	} else {
+		root = e.pkgOfEntry.Func(fnName)
+	}
+	if root == nil {
+		return nil
+	}
+	seen := map[int]bool{}
+	visit := func(f *ssa.Function) {
+		for _, b := range f.Blocks {
+			for _, in := range b.Instrs {
+				for _, op := range in.Operands(nil) {
+					if c, ok := (*op).(*ssa.Const); ok && c.Value != nil {
+						if _, _, isInt := intWidth(c.Type()); isInt {
+							if v, ok := constant.Int64Val(constant.ToInt(c.Value)); ok && v >= 64 && v <= 200000 {
+								seen[int(v)] = true
+							}
+						}
+					}
+				}
+			}
+		}
+	}
+	visit(root)
+	for _, b := range root.Blocks {
+		for _, in := range b.Instrs {
+			if c, ok := in.(ssa.CallInstruction); ok {
+				if callee := c.Common().StaticCallee(); callee != nil && callee.Pkg == root.Pkg {
+					visit(callee)
+				}
+			}
+		}
+	}
+	var out []int
+	for v := range seen {
+		out = append(out, v)
+	}
+	sort.Ints(out)
+	return out
+}
+
+func init() {
+	exact["zzverif.LenRange"] = func(e *Engine, st *State, fn *ssa.Function, args []Value, retTo *ssa.Call) (Value, bool) {
+		lo, hi := int(args[1].(*Term).Int64()), int(args[2].(*Term).Int64())
+		var ts []*Term
+		for v := lo; v <= hi; v++ {
+			ts = append(ts, ConstU(uint64(v), 64))
+		}
+		return exact["zzverif.Len"](e, st, fn, []Value{args[0], st.newByteSlice(ts)}, retTo)
+	}
+	// LenFromConsts(name, fn, base...) = Len(name, base ∪ {c-1,c,c+1,2c : c constant of fn})
+	exact["zzverif.LenFromConsts"] = func(e *Engine, st *State, fn *ssa.Function, args []Value, retTo *ssa.Call) (Value, bool) {
+		opts := args[2].(SliceV)
+		set := map[int]bool{}
+		for i := 0; i < opts.Len; i++ {
+			set[int(st.sliceGet(opts, i).(*Term).Int64())] = true
+		}
+		for _, c := range e.constsOf(strArg(args[1])) {
+			set[c-1], set[c], set[c+1], set[2*c] = true, true, true, true
+		}
+		var vals []int
+		for v := range set {
+			vals = append(vals, v)
+		}
+		sort.Ints(vals)
+		ts := make([]*Term, len(vals))
+		for i, v := range vals {
+			ts[i] = ConstU(uint64(v), 64)
+		}
+		sl := st.newByteSlice(ts) // element terms are 64-bit; only read through sliceGet
+		return exact["zzverif.Len"](e, st, fn, []Value{args[0], sl}, retTo)
+	}
 }
